@@ -147,7 +147,9 @@ def ps(prog: Program, res: Result, select: Callable[[FuncInfo], bool]) -> None:
         for a, b, text, node in eo.paired_selectors(prog, fi):
             desc = f"one selector picks the shape entries and the subscript columns in: {text[:110]}"
             where = prog.loc(fi, node)
-            if a == b:
+            if a is None:
+                res.undecided("PS", fi.short, desc, where, f"subscript columns are selected by `{b[:60]}`, the sizes that go with them are not read as shape[selector]")
+            elif a == b:
                 res.ok("PS", fi.short, desc, where, f"selector {a[:60]}")
             else:
                 res.bad("PS", fi.short, desc, where, f"shape is selected by `{a[:60]}` but subscript columns by `{b[:60]}`")
